@@ -370,3 +370,57 @@ OBLIGATIONS.append(Ob('expression_then_name', ob_expr_then_name, [], timeout=100
 for _k in list(T_LEAK) + ['sub']:
     OBLIGATIONS.append(Ob('cache_dies_' + _k, make_leak(_k), [], timeout=100, data='truth value at the first and at later evaluations of the named condition',
                           selectors='conditional left by an exception (caught by a surrounding dtml-try) / by dtml-return in a sub-template; the same name tested again afterwards'))
+
+
+# ---------------------------------------------------------------- wave 4
+T_SIB = cooked('<dtml-call bump><dtml-call bump>|<dtml-if flag>on<dtml-else>off</dtml-if><dtml-call toggle><dtml-if flag>on<dtml-else>off</dtml-if>'
+               '<dtml-unless flag>U</dtml-unless>|<dtml-if bump>b</dtml-if><dtml-if bump>b</dtml-if><dtml-in two><dtml-if bump>c</dtml-if></dtml-in>')
+T_CALL_UNDEF = {
+    'dtml': cooked('a<dtml-call nosuch>b<dtml-call name="nosuch">c<dtml-in two><dtml-call hook></dtml-in>d'),
+    'ssi': cooked('a<!--#call nosuch-->b<!--#call name="nosuch"-->c<!--#in two--><!--#call hook--><!--#/in-->d'),
+    'epfs': cooked('a%(call nosuch)!b%(call name="nosuch")!c%(in two)[%(call hook)!%(in two)]d', String),
+}
+
+
+class Box:
+    def __init__(self, v):
+        self.v, self.n = v, 0
+
+
+def ob_siblings(v0: bool, flip: bool) -> bool:
+    """what one conditional looked up dies with it: conditionals side by side (same nesting level, same block list, loop iterations)
+    each evaluate the name again and see its CURRENT value"""
+    box = Box(v0)
+    calls = []
+
+    def bump():
+        calls.append(1)
+        return len(calls)
+
+    def flag():
+        return 'T' if box.v else ''
+
+    def toggle():
+        if flip:
+            box.v = not box.v
+        return ''
+    out = T_SIB(bump=bump, flag=flag, toggle=toggle, two=[1, 2])
+    after = (not v0) if flip else v0
+    exp = '|' + ('on' if v0 else 'off') + ('on' if after else 'off') + ('' if after else 'U') + '|bbcc'
+    return out == exp and len(calls) == 6
+
+
+def ob_call_undefined(hook: bool, syn: int) -> bool:
+    """dtml-call on a name that is not defined evaluates nothing and emits nothing (an undefined name counts as false), in all syntaxes"""
+    key = 'dtml' if syn == 0 else 'ssi' if syn == 1 else 'epfs'
+    seen = []
+    ns = {'two': [1, 2]}
+    if hook:
+        ns['hook'] = lambda: seen.append(1) or 'ignored'
+    out = T_CALL_UNDEF[key](**ns)
+    return out == 'abcd' and len(seen) == (2 if hook else 0)
+
+
+OBLIGATIONS.append(Ob('sibling_conditionals', ob_siblings, [], timeout=100, data='initial truth value; whether a call between two conditionals flips it',
+                      selectors='call / if / unless side by side on one level and in loop iterations, naming the same callable'))
+OBLIGATIONS.append(Ob('call_undefined_name', ob_call_undefined, ['0 <= syn <= 2'], timeout=100, data='whether the optional hook is defined; syntax', selectors='dtml-call on undefined / optional names', stubs='relib-escape'))
